@@ -202,9 +202,128 @@ def make_fixed_point(kind, n, pre_s, post_s, lead=''):
     return k_fixed_point, pre
 
 
+# (f) transparent (de)compression: layers chosen by suffix, text layer iff text mode, every
+# layer closed on exit and on error
+import gemato.compression as g_comp  # noqa: E402
+
+CNAMES = ('Manifest', 'Manifest.gz', 'Manifest.bz2', 'Manifest.lzma', 'Manifest.xz',
+          'Manifest.GZ', 'Manifest.gzip', 'a.gz/Manifest', 'Manifest.gz.bak')
+CMODES = ('r', 'w', 'rb', 'wb')
+
+
+class _Layer:
+    def __init__(self, log, kind, *a, **kw):
+        self.log, self.kind, self.closed = log, kind, False
+        log.append(('open', kind, a, kw, self))
+
+    def close(self):
+        self.closed = True
+        self.log.append(('close', self.kind))
+
+    def __enter__(self):
+        return self
+
+    def __exit__(self, *a):
+        self.close()
+
+
+def k_open_compressed(name: int, mode: int, fail_at: int):
+    with sym.untraced():
+        nm = CNAMES[sym.pick_index(name, len(CNAMES))]
+        md = CMODES[sym.pick_index(mode, len(CMODES))]
+        fail = sym.pick_index(fail_at, 4)        # 0 = no failure, k = k-th layer fails
+        log = []
+
+        def mk(kind):
+            def ctor(*a, **kw):
+                if fail and len([x for x in log if x[0] == 'open']) == fail - 1:
+                    raise OSError(5, 'injected')
+                return _Layer(log, kind, *a, **kw)
+            return ctor
+
+        class _Gzip:
+            GzipFile = staticmethod(mk('gz'))
+            BadGzipFile = OSError
+
+        class _Bz2:
+            BZ2File = staticmethod(mk('bz2'))
+
+        class _Lzma:
+            LZMAFile = staticmethod(mk('lzma'))
+            FORMAT_ALONE, FORMAT_XZ = 'alone', 'xz'
+            LZMAError = OSError
+
+        class _Io:
+            TextIOWrapper = staticmethod(mk('text'))
+        saved = {k: g_comp.__dict__.get(k, _Io) for k in ('gzip', 'bz2', 'lzma', 'io', 'open')}
+        g_comp.gzip, g_comp.bz2, g_comp.lzma, g_comp.io = _Gzip, _Bz2, _Lzma, _Io
+        g_comp.open = mk('file')
+    try:
+        try:
+            h = g_comp.open_potentially_compressed_path('/d/' + nm, md, encoding='utf8')
+            with h as top:
+                topkind = top.kind
+            raised = False
+        except OSError:
+            raised = True
+    finally:
+        for k, v in saved.items():
+            if v is _Io:
+                del g_comp.__dict__[k]
+            else:
+                setattr(g_comp, k, v)
+    with sym.untraced():
+        opens = [x for x in log if x[0] == 'open']
+        suffix = {'Manifest.gz': 'gz', 'Manifest.bz2': 'bz2', 'Manifest.lzma': 'lzma',
+                  'Manifest.xz': 'lzma'}.get(nm)
+        text = 'b' not in md
+        want = ['file'] + ([suffix] if suffix else []) + (['text'] if suffix and text else [])
+        # every layer that was opened has been closed again, innermost last
+        if any(not x[4].closed for x in opens):
+            return False, True
+        if raised:
+            return fail != 0 and fail <= len(want), True
+        if fail != 0 and fail <= len(want):
+            return False, True
+        if [x[1] for x in opens] != want or topkind != want[-1]:
+            return False, True
+        f0 = opens[0]
+        if suffix:
+            # the raw file is binary, the codec sits on it with the format of the suffix,
+            # the text layer (caller's encoding) on top only in text mode
+            if f0[2][1] not in ('rb', 'wb') or f0[2][1][0] != md[0]:
+                return False, True
+            c1 = opens[1]
+            if nm == 'Manifest.xz' and c1[3].get('format') != 'xz':
+                return False, True
+            if nm == 'Manifest.lzma' and c1[3].get('format') != 'alone':
+                return False, True
+            if text and opens[2][3].get('encoding') != 'utf8':
+                return False, True
+            closes = [x[1] for x in log if x[0] == 'close']
+            if closes != list(reversed(want)):
+                return False, True
+        else:
+            if f0[2][1] != md or (text and f0[3].get('encoding') != 'utf8'):
+                return False, True
+        return True, suffix is not None
+
+
+def k_open_compressed_pre(name: int, mode: int, fail_at: int):
+    return 0 <= name < len(CNAMES) and 0 <= mode < len(CMODES) and 0 <= fail_at <= 3
+
+
 def conditions(tier):
     cs = []
     full = tier != 'quick'
+    cs.append(Cond('open_compressed', k_open_compressed, k_open_compressed_pre, timeout=300,
+                   group='compression',
+                   descr='open_potentially_compressed_path with recording stand-ins for '
+                         'open/GzipFile/BZ2File/LZMAFile/TextIOWrapper: layers chosen by the '
+                         'exact suffix only, raw file binary, text layer with the caller\'s '
+                         'encoding iff text mode, all layers closed (innermost last) on exit '
+                         'and when any constructor fails',
+                   bounds='9 names x 4 modes x failure at layer 0-3'))
     lefts = range(len(LEFT)) if full else (0, 1, 2, 4)
     rights = range(len(RIGHT)) if full else (0, 1, 2, 6, 7)
     for l in lefts:
